@@ -549,11 +549,26 @@ impl<'a> Driver<'a> {
             }
         }
         // a right dropped, side flipped: different positions
-        let mut bb = BoardBuilder::from_board(b);
-        bb.castle_rights_mut(Color::White).short = None;
-        bb.castle_rights_mut(Color::Black).long = None;
-        if let Some(Ok(x)) = guard(|| bb.build()) {
-            partners.push(x);
+        // rights dropped in every pattern (one right, one wing of both colours, one colour, all): different positions
+        for pat in 1..16u8 {
+            let mut bb = BoardBuilder::from_board(b);
+            if pat & 1 != 0 {
+                bb.castle_rights_mut(Color::White).short = None;
+            }
+            if pat & 2 != 0 {
+                bb.castle_rights_mut(Color::White).long = None;
+            }
+            if pat & 4 != 0 {
+                bb.castle_rights_mut(Color::Black).short = None;
+            }
+            if pat & 8 != 0 {
+                bb.castle_rights_mut(Color::Black).long = None;
+            }
+            if bb.castle_rights != BoardBuilder::from_board(b).castle_rights && (pat == 15 || pat == 5 || pat == 10 || pat == 3 || pat == 12 || self.rng.chance(1, 4)) {
+                if let Some(Ok(x)) = guard(|| bb.build()) {
+                    partners.push(x);
+                }
+            }
         }
         let mut bb = BoardBuilder::from_board(b);
         bb.side_to_move = !bb.side_to_move;
